@@ -1,4 +1,5 @@
 import UtpVerif.Model.Rtte
+import UtpVerif.Gen.Fns
 /-!
 # C16 — retransmission-timeout estimator stays within bounds
 
@@ -192,5 +193,19 @@ theorem srtt_between_samples (evs : List Ev) : SrttInv (samples evs) (run evs) :
 example : (run [.sample 50000000, .timeout, .timeout]).rto = 800000000 := by decide
 example : (run [.sample 50000000, .timeout, .sample 50000000]).rto = 200000000 := by decide
 example : (run [.sample 0]).rto = 200000000 ∧ (run [.sample 100000000000000]).rto = 60000000000 := by decide
+
+/-! ### Tie 1b: the hand-written model of this function equals the definition regenerated from the Rust source
+
+`UtpVerif.Gen.Fns` is rewritten by `tools/translate_fns.py` from /repo's current source on every run; the theorems
+of this file are about the model definition, and the equality below re-attaches them to what the code says now. -/
+
+theorem generated_clamp (r : Nat) : UtpVerif.Gen.Fns.rtoClamp r = Rtte.clamp r := rfl
+theorem generated_calc_rto (s v : Nat) : UtpVerif.Gen.Fns.calcRto s v = Rtte.calcRto s v := rfl
+theorem generated_abs_diff (a b : Nat) : UtpVerif.Gen.Fns.durationAbsDiff a b = Rtte.absDiff a b := rfl
+/-- The two assignments of `RttEstimator::sample` (Subsequent arm), as written in the source, are the model's step. -/
+theorem generated_sample_update (rto srtt rttvar r : Nat) :
+    Rtte.sample (.subsequent rto srtt rttvar) r =
+      .subsequent (UtpVerif.Gen.Fns.calcRto (UtpVerif.Gen.Fns.srttUpdate srtt r) (UtpVerif.Gen.Fns.rttvarUpdate rttvar srtt r))
+        (UtpVerif.Gen.Fns.srttUpdate srtt r) (UtpVerif.Gen.Fns.rttvarUpdate rttvar srtt r) := rfl
 
 end UtpVerif.Props.C16
